@@ -63,6 +63,7 @@ CONSTANTS
   WithCan = {withcan}
   PropSet = {propset}
   WithBatch = {withbatch}
+  WithBurst = {withburst}
   MaxStates = {maxstates}
 VIEW View
 CONSTRAINT Bound
@@ -102,7 +103,7 @@ def canon_step(step: dict) -> dict:
         gv = {}
     r = {"op": step["op"], "ev": step.get("ev", ""), "gv": dict(gv)}
     if step["op"] == "batch":
-        r["ev2"] = step.get("ev2", "")
+        r["evs"] = list(step.get("evs") or [])
     return r
 
 
@@ -131,12 +132,13 @@ def _set(xs) -> str:
 
 
 def model_check(built: List[Built], workdir: str, *, engine="sync", gvals=("T", "F"), with_can=False,
-                workers=4, timeout=1800, coverage=False, props=ALL_PROPS, max_states=10 ** 8, with_batch=False) -> Tuple[tla.TLCResult, List[Edge]]:
+                workers=4, timeout=1800, coverage=False, props=ALL_PROPS, max_states=10 ** 8, with_batch=False, with_burst=False) -> Tuple[tla.TLCResult, List[Edge]]:
     os.makedirs(workdir, exist_ok=True)
     tla.write_batch(os.path.join(workdir, "Batch.tla"), [b.defn for b in built])
     cfg = MC_CFG.format(engine=engine, gvals="{" + ", ".join(f'"{g}"' for g in gvals) + "}",
                         withcan="TRUE" if with_can else "FALSE", propset=_set(props),
-                        maxstates=max_states, withbatch="TRUE" if with_batch else "FALSE")
+                        maxstates=max_states, withbatch="TRUE" if with_batch else "FALSE",
+                        withburst="TRUE" if with_burst else "FALSE")
     edges: List[Edge] = []
     res = tla.run_tlc("MCCore", cfg, workdir, workers=workers, timeout=timeout, coverage=coverage,
                       json_sink=lambda o: edges.append(Edge(o)))
